@@ -256,7 +256,8 @@ def argtopk(a_plus_idx, k, axis, keepdims):
         a, idx = a_plus_idx
 
     if abs(k) >= a.shape[axis]:
-        return a_plus_idx
+        # every element is kept; hand back the concatenated pair, not the nested list
+        return a, idx
 
     idx2 = np.argpartition(a, -k, axis=axis)
     k_slice = slice(-k, None) if k > 0 else slice(-k)
